@@ -270,7 +270,9 @@ GcStrip == /\ pc = "gcstrip" /\ todo # <<>>
 GcVanish == /\ pc = "gcstrip" /\ todo # <<>> /\ envs < MaxEnv
             /\ LET o == todo[1] IN
                /\ Exists(o) /\ Mine(o)
-               /\ store' = Gone(o) /\ Log(H("env", "remove", IdStr(o), ""))
+               \* n: how many resources the collector still has to visit (it ranges over a Go map: which one it meets first differs
+               \* from run to run, so the harness repeats such runs, and the sampling makes sure runs with n > 1 are among them)
+               /\ store' = Gone(o) /\ Log([t |-> "env", k |-> "remove", o |-> IdStr(o), f |-> "", n |-> Len(todo)])
             /\ envs' = envs + 1 /\ quiet' = FALSE
             /\ UNCHANGED <<refs, want, rfail, deco, nextId, pc, obs, des, wantR, todo, recs, faults, pfail, startS, cmiss, startR, gcd, steady, bad>>
 \* ... or another owner makes itself its controller (the collector still holds the copy it observed, which names the XR):
